@@ -35,6 +35,9 @@ type Case struct {
 	Chunk []uint64 `json:"chunk,omitempty"`
 	Mixed bool     `json:"mixed,omitempty"` // data with extreme values (top bits set, NaN payloads, negative zero) instead of 0,1,2,..
 	DSeed int      `json:"dseed,omitempty"`
+	// WDims, when set: the dataset is created and written with this shape and resized to Dims afterwards, without a rewrite
+	// (every written chunk still intersects the new extent; the part never written reads as zero through every read path)
+	WDims []uint64 `json:"wdims,omitempty"`
 	// ... or a corpus dataset
 	Corpus string `json:"corpus,omitempty"` // file (relative to /repo/testdata) + "::" + dataset path
 	Sels   []Sel  `json:"sels"`
@@ -205,8 +208,18 @@ func gen(t *rapid.T) Case {
 			c.Dims = append(c.Dims, uint64(rapid.IntRange(1, maxE).Draw(t, "extent")))
 		}
 		if rapid.IntRange(0, 2).Draw(t, "chunked") > 0 {
-			for _, e := range c.Dims {
-				c.Chunk = append(c.Chunk, uint64(rapid.IntRange(1, int(e)).Draw(t, "chunk")))
+			if rapid.IntRange(0, 2).Draw(t, "resized") == 0 {
+				c.WDims = append([]uint64{}, c.Dims...)
+				for i, w := range c.WDims {
+					ch := uint64(rapid.IntRange(1, int(w)).Draw(t, "chunk"))
+					c.Chunk = append(c.Chunk, ch)
+					lo := (w-1)/ch*ch + 1 // the last written chunk keeps at least one row inside the new extent
+					c.Dims[i] = uint64(rapid.IntRange(int(lo), maxE+3).Draw(t, "finalExtent"))
+				}
+			} else {
+				for _, e := range c.Dims {
+					c.Chunk = append(c.Chunk, uint64(rapid.IntRange(1, int(e)).Draw(t, "chunk")))
+				}
 			}
 		}
 	}
@@ -224,6 +237,9 @@ func classify(c Case) (bool, []string) {
 		labels = append(labels, "corpus")
 	case c.Chunk != nil:
 		labels = append(labels, "chunked")
+		if c.WDims != nil {
+			labels = append(labels, "resized_after_write")
+		}
 	default:
 		labels = append(labels, "contiguous")
 	}
@@ -327,6 +343,16 @@ func run(c Case) vt.Verdict {
 			return vt.Bad("CreateForWrite: %v", err)
 		}
 		spec := &hist.DSpec{Type: c.Type, Dims: c.Dims, Chunk: c.Chunk}
+		if c.WDims != nil {
+			if len(c.WDims) != len(c.Dims) || c.Chunk == nil {
+				ex.Close()
+				return vt.Skipped("bad resize spec")
+			}
+			spec.Dims = c.WDims
+			for range c.WDims {
+				spec.MaxDims = append(spec.MaxDims, hdf5.Unlimited)
+			}
+		}
 		if !spec.Valid() {
 			ex.Close()
 			return vt.Skipped("bad spec")
@@ -335,6 +361,12 @@ func run(c Case) vt.Verdict {
 			if st := ex.Apply(op); st.Err != "" || st.Broken != "" {
 				ex.Close()
 				return vt.Bad("setup %s: %s%s", op.K, st.Err, st.Broken)
+			}
+		}
+		if c.WDims != nil {
+			if st := ex.Apply(hist.Op{K: "resize", Path: dpath, Dims: c.Dims}); st.Err != "" || st.Broken != "" {
+				ex.Close()
+				return vt.Bad("Resize %v -> %v (chunk %v, unlimited): %s%s", c.WDims, c.Dims, c.Chunk, st.Err, st.Broken)
 			}
 		}
 		if err := ex.Close(); err != nil {
